@@ -6,7 +6,8 @@ from typing import Any, Optional, Sequence, Self, Callable
 from collections import defaultdict
 from itertools import product as py_product
 
-from sympy import (Basic, Expr, S, Mul as SymMul, Add as SymAdd, Derivative as SymDerivative,
+from sympy import (Basic, Expr, S, Mul as SymMul, Add as SymAdd, Pow as SymPow,
+    Derivative as SymDerivative,
     fraction, sympify as sym_sympify)
 from sympy.core import function as sym_fn
 from sympy.core.parameters import global_parameters
@@ -65,6 +66,10 @@ def is_vector_expr(value: Any) -> bool:  # pylint: disable=too-many-return-state
             if is_vector_expr(arg):
                 n_vectors += 1
                 continue
+
+            # a power of a vector, eg `b**2` or `1 / b**2`, is neither a vector nor a scalar
+            if isinstance(arg, SymPow) and arg.base != 0 and is_vector_expr(arg.base):
+                return False
 
         match n_vectors:
             case 0:
